@@ -484,6 +484,8 @@ def c13_rules(chk, prog):
     chk.floor("padding-writer bounds obligations", n, 1)
     emitter_shape_rules(chk, prog, roles, want=("DEST", "GRID"), rule="GRID")
     PL.encoder_idempotence_rule(chk, prog, roles)
+    from . import cover as CV
+    CV.cover_rule(chk, prog, roles)
     PL.restore_rule(chk, prog, roles, rule="KEEP", fields=("assembly_mode", "chunk_size"))
     setter_mode_rule(chk, prog)
     counting_mode_rule(chk, prog, roles)
